@@ -205,7 +205,8 @@ def main():
     expp = args[2] if len(args) > 2 else os.path.join(here, "skeleton", "guards.expected.json")
     got, missing = extract(repo)
     os.makedirs(os.path.dirname(outp), exist_ok=True)
-    json.dump(got, open(outp, "w"), indent=1, sort_keys=True)
+    json.dump(got, open(outp + ".tmp%d" % os.getpid(), "w"), indent=1, sort_keys=True)
+    os.replace(outp + ".tmp%d" % os.getpid(), outp)
     nev = sum(len(v) for v in got.values())
     if "--write-expected" in sys.argv:
         json.dump(got, open(expp, "w"), indent=1, sort_keys=True)
